@@ -126,6 +126,12 @@ func skeletonsOf(p *Pkgs, prop string) []skelFn {
 					recv = id.Name
 				}
 			}
+			if translatedFor(prop, recv, fd.Name.Name) {
+				// the function is translated statement by statement (trans.go) and a theorem of this property says that the
+				// translation equals the model for all inputs: the semantic obligation replaces the syntactic pin, so that a
+				// harmless rewrite of the function raises no alarm while any change of what it computes breaks the theorem
+				continue
+			}
 			desc := file + ":" + recv + "." + fd.Name.Name
 			sig := "func " + a2Print(fd.Type)
 			body := append([]string{sig}, a2Skeleton(fd.Body, nil)...)
